@@ -939,6 +939,8 @@ class SimWorld:
         self.pools = []
         self.connections = []
         self.mp_module = None
+        self.threads = []
+        self.n_threads = 0
         kernel.extra_actions.append(self._feeder_actions)
         kernel.extra_actions.append(self._fault_actions)
         kernel.extra_actions.append(self._signal_actions)
@@ -1010,8 +1012,13 @@ class SimWorld:
                 proc.target_done = True
             finally:
                 # util._exit_function(): finalizers join the feeder threads (flush), also after an
-                # exception in the target (process.py: _bootstrap, inner try/finally)
+                # exception in the target (process.py: _bootstrap, inner try/finally); afterwards
+                # threading._shutdown() waits for the process's non-daemon threads
                 self._exit_flush(proc)
+                if self.threads:
+                    from . import simthreads
+
+                    simthreads.wait_for_non_daemon_threads(proc)
         except SystemExit as e:
             c = e.code
             if c is None:
@@ -1118,6 +1125,9 @@ class SimWorld:
             "op": task.pending.kind if task.pending is not None else None,
         }
         self.kernel.kill_task(task)
+        for t in self.kernel.tasks:
+            if t.is_thread and t.proc is proc:
+                self.kernel.kill_task(t)  # every thread of the process dies with it
         if lock_leaked:
             self.note_probe("death_with_write_lock_held")
         if torn:
